@@ -58,6 +58,12 @@ Theorem C14_std_lookup_refuted : exists (std : list (text * unit)) disk name,
   is_std_path name = true /\ assoc name std = None /\ real_lookup std disk name <> None.
 Proof. exact std_lookup_refuted. Qed.
 
+(* outside the embedded table the file server returns the content on disk verbatim: what incbin & co. slice
+   (C14_incbin ...) are the bytes on disk.  Tied to FileServerReal::get_bytes by the bytes-on-disk stream. *)
+Theorem C14_real_lookup_verbatim : forall (A : Type) (std : list (text * A)) disk name,
+  assoc name std = None -> real_lookup std disk name = disk name.
+Proof. exact real_lookup_verbatim. Qed.
+
 (* ---------------------------------------------------------------- include expansion *)
 (* with fuel |files| + 2 the expansion never runs out of fuel and never panics, for every file system
    whose existing files are among `dom` *)
